@@ -27,19 +27,13 @@ Zeros(n) == [i \in 1 .. n |-> 0]
 JunkA(n) == LE16(6144 + 64 * n) \o LE16(7 + n) \o <<36, 48, 1, 0>>
 JunkI(n) == LE16(6144 + 64 * n) \o LE16(7 + n) \o <<38, 48, 0, 0>>
 FmmuJunk == <<0, 0, 1, 0, 4, 0, 0, 7, 0, 17, 0, 1, 1, 0, 0, 0>>
-RegFrom(station, sm, fm) ==
-    [a \in Tracked(1) |->
-        IF a \in StationRegs THEN LE16(station)[a - AStation + 1]
-        ELSE IF a \in SmRegs THEN sm[a - ASm + 1]
-        ELSE IF a \in FmmuRegs(1) THEN fm[a - AFmmu + 1]
-        ELSE IF a = AWdDiv THEN 194 ELSE IF a = AWdDiv + 1 THEN 9
-        ELSE IF a \in {AWdPdi, AWdProc} THEN 232 ELSE 3]
 Clean(p) == p[1] = 0 /\ p[2] = StInit /\ p[3] = Zeros(8) /\ p[4] = Zeros(8) /\ p[5] = Zeros(8) /\ p[6] = Zeros(16)
 Old(p) == p[3] = JunkA(0) /\ p[4] = JunkA(1) /\ p[5] = JunkI(2) /\ p[6] = FmmuJunk
 PriorParts == {p \in {0, 291} \X {StInit, StOp} \X {Zeros(8), JunkA(0)} \X {Zeros(8), JunkA(1)}
                       \X {Zeros(8), JunkA(2), JunkI(2)} \X {Zeros(16), FmmuJunk} :
                   Rich \/ Clean(p) \/ Old(p)}
-Priors == {[reg |-> RegFrom(p[1], p[3] \o p[4] \o p[5], p[6]), al |-> p[2], nf |-> 1] : p \in PriorParts}
+Priors == {[station |-> p[1], wd |-> <<2498, 1000, 1000>>, fmmu |-> <<p[6]>>, sm |-> <<p[3], p[4], p[5]>>,
+            al |-> p[2], nf |-> 1] : p \in PriorParts}
 
 (* ---- the reference master ---- *)
 W(ado, data) == [ado |-> ado, data |-> data]
@@ -70,11 +64,11 @@ RefWrites(c) ==
 Area(kind, fromreg) ==
     IF ~ee.has41 \/ ByType(ee.d, kind) = {} THEN [off |-> None, sz |-> None, addr |-> None]
     ELSE LET n == CHOOSE m \in ByType(ee.d, kind) : TRUE IN
-         IF fromreg THEN [off |-> SmBlock(esc.reg, n).start, sz |-> SmBlock(esc.reg, n).len, addr |-> ASm + 8 * n]
+         IF fromreg THEN [off |-> SmBlock(esc, n).start, sz |-> SmBlock(esc, n).len, addr |-> ASm + 8 * n]
          ELSE [off |-> Ent(ee.d, n).start, sz |-> Ent(ee.d, n).len, addr |-> ASm + 8 * n]
 RefView(c) ==
     LET fr == c.op = "gentle" /\ Configured(c) IN
-    [position |-> R16(esc.reg, AStation), nfmmu |-> esc.nf,
+    [position |-> esc.station, nfmmu |-> esc.nf,
      mbx_out_off |-> Area("mbx_out", fr).off, mbx_out_sz |-> Area("mbx_out", fr).sz,
      mbx_in_off |-> Area("mbx_in", fr).off, mbx_in_sz |-> Area("mbx_in", fr).sz,
      pdo_out_off |-> Area("pdo_out", fr).off, pdo_out_sz |-> Area("pdo_out", fr).sz,
@@ -83,7 +77,7 @@ RefView(c) ==
      pdo_in_addr |-> Area("pdo_in", fr).addr]
 
 Mk(op, rel, abs, addr, a, b) == [op |-> op, has_rel |-> rel, has_abs |-> abs, abs |-> addr, a |-> a, b |-> b]
-Station == R16(esc.reg, AStation)
+Station == esc.station
 Knows == obj.position # Unset /\ obj.position = Station /\ Station # 0
 Choices ==
     ({Mk("initialize", rel, abs, IF rel THEN 20 ELSE Station, 0, 0) :
@@ -92,7 +86,7 @@ Choices ==
     \cup {Mk("gentle", rel, ~rel, IF rel THEN 0 ELSE Station, 0, 0) : rel \in {r \in BOOLEAN : r \/ Station # 0}}
     \cup (IF Knows THEN {Mk("apply_eeprom", FALSE, FALSE, 0, 0, 0), Mk("set_watchdog", FALSE, FALSE, 0, 1000, 65535)}
           ELSE {})
-    \cup (IF Knows /\ ConfiguredAsEeprom(esc.reg, ee)
+    \cup (IF Knows /\ ConfiguredAsEeprom(esc, ee)
           THEN {Mk("write_pdo_sm", FALSE, FALSE, 0, IF z \/ ByType(ee.d, "pdo_out") = {} THEN 0 ELSE 5,
                    IF z \/ ByType(ee.d, "pdo_in") = {} THEN 0 ELSE 3) : z \in BOOLEAN}
           ELSE {})
@@ -104,16 +98,16 @@ MCNext ==
        /\ todo' = RefWrites(call') /\ ncalls' = ncalls + 1
     \/ /\ Busy /\ todo # <<>> /\ Write(0, Head(todo).ado, Head(todo).data)
        /\ todo' = Tail(todo) /\ UNCHANGED ncalls
-    \/ /\ Busy /\ todo = <<>> /\ Return(TRUE, RefView(call), <<>>) /\ UNCHANGED <<todo, ncalls>>
+    \/ /\ Busy /\ todo = <<>> /\ Return(RefView(call), <<>>) /\ UNCHANGED <<todo, ncalls>>
     \/ /\ \E s \in {StInit, StOp} : s # esc.al /\ EnvAl(s)
        /\ ncalls \in 1 .. (MaxCalls - 1) /\ UNCHANGED <<todo, ncalls>>
     \/ /\ EnvNewObj /\ obj # NoObj /\ ncalls < MaxCalls /\ UNCHANGED <<todo, ncalls>>
 MCSpec == MCInit /\ [][MCNext]_mvars
 
-RefMeetsPost == (Busy /\ todo = <<>>) => PostOf(call, esc, RefView(call), ee, {})
-RefInFrame == (Busy /\ todo # <<>>) =>
-    (Head(todo).ado .. (Head(todo).ado + Len(Head(todo).data) - 1)) \subseteq Allowed(call, ee)
+RefMeetsPost == (Busy /\ todo = <<>>) => PostOf(call, esc, RefView(call), obj, ee, {})
+RefInFrame == (Busy /\ todo # <<>>) => InFrame(call, ee, Head(todo).ado, Len(Head(todo).data))
 MCTypeOK == /\ esc.al \in {StInit, StPreop, StSafeop, StOp}
-            /\ \A a \in DOMAIN esc.reg : esc.reg[a] \in 0 .. 255
-            /\ DOMAIN esc.reg = Tracked(esc.nf)
+            /\ esc.station \in 0 .. 65535 /\ \A k \in 1 .. 3 : esc.wd[k] \in 0 .. 65535
+            /\ Len(esc.fmmu) = esc.nf /\ \A i \in 1 .. esc.nf : esc.fmmu[i] \in [1 .. 16 -> 0 .. 255]
+            /\ Len(esc.sm) = NSm /\ \A n \in 1 .. NSm : esc.sm[n] \in [1 .. 8 -> 0 .. 255]
 =============================================================================
